@@ -159,7 +159,7 @@ func evalInt(w *W, content []byte) {
 	refInteger(content, &w.d.rInt)
 	v := verdict{w.d.rInt.reason, len(in)}
 	w.intTargets(in, v, 0, n)
-	if w.anyAccept && (n != 3 || w.allVariants || isEdge6(content[0]) && isEdge6(content[2])) {
+	if w.anyAccept && (n != 3 || isEdge6(content[2]) && (w.allVariants || isEdge6(content[0]))) {
 		w.intVariants(in, v, n)
 	}
 }
